@@ -26,6 +26,7 @@ from fractions import Fraction
 from hypothesis import strategies as st
 
 from ..common import cedge, dc
+from ..common import nodes_with_metadata
 from ..engine import Clause, Violation, require
 from ..strategies import universes
 from ..common import with_history  # noqa: E402
@@ -58,7 +59,8 @@ ASSUMPTIONS = [
 ATTRS = ["color", "k", "role"]
 VALUES = ["red", "blue", 1, 2]
 LAYERS = ["L1", "L2", "social"]
-BAD_MODES = ["drop", "KEEP", "", None, "keep "]
+# words that no tolerant reading (case, blanks) turns into keep/remove
+BAD_MODES = ["drop", "retain", "", None, "delete"]
 
 
 # --------------------------------------------------------------------------
@@ -265,7 +267,7 @@ class MultiplexFlavour(Flavour):
 def observe(fl, h):
     """{'nodes': {label: metadata}, 'recs': {(nodes, extra): (weight, metadata)},
     'incident': {label: Counter(keys)}} through public calls only."""
-    nodes = {n: dc(m) for n, m in h.get_nodes(metadata=True).items()}
+    nodes = {n: dc(m) for n, m in nodes_with_metadata(h).items()}
     plain = list(h.get_nodes())
     if Counter(plain) != Counter(nodes.keys()):
         raise Violation("get_nodes() lists %r but get_nodes(metadata=True) has keys %r"
